@@ -117,3 +117,58 @@ def reachable_values(f, var, is_target, start_block=None, signed=True, stop=None
         if hit:
             out.add(byte)
     return out
+
+
+def returned_by_byte(f, var, signed=True):
+    """{byte: set of values the function can return for that byte} - a `return <expr>` is evaluated
+    under the concrete byte; None in the set means "not decidable here"."""
+    out = {}
+    for byte in range(256):
+        v = byte - 256 if (signed and byte >= 128) else byte
+        env = {var: v}
+        vals = set()
+        seen = set()
+        work = [f.entry]
+        while work:
+            b = work.pop()
+            if b in seen:
+                continue
+            seen.add(b)
+            blk = f.blocks[b]
+            done = False
+            for e in blk['ev']:
+                if e['k'] == 'ret':
+                    vals.add(eval_int(e.get('e'), env))
+                    done = True
+                    break
+            if done:
+                continue
+            t = blk.get('term')
+            succ = blk['succ']
+            if t and t['kind'] == 'switch' and 'cond' in t:
+                cv = eval_int(t['cond'], env)
+                if cv is not None:
+                    chosen = default = None
+                    for s2 in succ:
+                        if s2 is None:
+                            continue
+                        lab = f.blocks[s2].get('label') or {}
+                        if lab.get('case') and lab['case'][0] <= cv <= lab['case'][1]:
+                            chosen = s2
+                        if lab.get('default'):
+                            default = s2
+                    nxt = chosen if chosen is not None else default
+                    work.append(nxt if nxt is not None else succ[-1])
+                    continue
+            if t and 'cond' in t and len(succ) == 2:
+                cv = eval_int(f.eff_cond(b), env)
+                if cv is not None:
+                    nxt = succ[0] if cv else succ[1]
+                    if nxt is not None:
+                        work.append(nxt)
+                    continue
+            for s2 in succ:
+                if s2 is not None:
+                    work.append(s2)
+        out[byte] = vals
+    return out
